@@ -135,7 +135,10 @@ impl FileMetadataState {
     fn update_dimensions(&mut self, entry: &DirEntry) {
         if !self.dimensions_set {
             self.dimensions_set = true;
-            self.dimensions = get_dimensions(entry.path());
+            self.dimensions = match crate::util::is_regular_file(&entry.path()) {
+                true => crate::util::no_panic(|| get_dimensions(entry.path())).flatten(),
+                false => None,
+            };
         }
     }
 
@@ -144,7 +147,13 @@ impl FileMetadataState {
             self.update_mp3_metadata(entry);
 
             self.duration_set = true;
-            self.duration = get_duration(entry.path(), &self.mp3_metadata);
+            self.duration = match crate::util::is_regular_file(&entry.path()) {
+                true => {
+                    let mp3_metadata = &self.mp3_metadata;
+                    crate::util::no_panic(|| get_duration(entry.path(), mp3_metadata)).flatten()
+                }
+                false => None,
+            };
         }
     }
 }
@@ -684,7 +693,7 @@ impl<'a> Searcher<'a> {
                                     if search_archives
                                         && self.is_zip_archive(&path.to_string_lossy())
                                     {
-                                        if let Ok(file) = fs::File::open(&path) {
+                                        if let Ok(file) = crate::util::open_regular_file(&path) {
                                             if let Ok(mut archive) = zip::ZipArchive::new(file) {
                                                 for i in 0..archive.len() {
                                                     if !self.is_buffered()
@@ -1720,7 +1729,7 @@ impl<'a> Searcher<'a> {
                 }
             }
             Field::Mime => {
-                if let Some(mime) = tree_magic_mini::from_filepath(&entry.path()) {
+                if let Some(mime) = crate::util::mime_from_filepath(&entry.path()) {
                     return Variant::from_string(&String::from(mime));
                 }
 
@@ -1736,7 +1745,7 @@ impl<'a> Searcher<'a> {
                     }
                 }
 
-                if let Some(mime) = tree_magic_mini::from_filepath(&entry.path()) {
+                if let Some(mime) = crate::util::mime_from_filepath(&entry.path()) {
                     let is_binary = !is_text_mime(mime);
                     return Variant::from_bool(is_binary);
                 }
@@ -1753,7 +1762,7 @@ impl<'a> Searcher<'a> {
                     }
                 }
 
-                if let Some(mime) = tree_magic_mini::from_filepath(&entry.path()) {
+                if let Some(mime) = crate::util::mime_from_filepath(&entry.path()) {
                     let is_text = is_text_mime(mime);
                     return Variant::from_bool(is_text);
                 }
